@@ -456,6 +456,23 @@ def translate_jobstate(repo):
 JOBUTIL_KNOWN = {}
 
 
+def translate_once(repo):
+    """Scheduler.once() of both front ends (+ JOB_TYPE_MAPPING of base/definition.py)"""
+    import py2v_once as N
+    dpath = os.path.join(repo, "scheduler/base/definition.py")
+    CURFILE[0] = dpath
+    out = [N.type_mapping(ast.parse(open(dpath).read()))]
+    jpath = os.path.join(repo, "scheduler/base/job.py")
+    CURFILE[0] = jpath
+    defaults = N.init_defaults(ast.parse(open(jpath).read()))
+    for rel, name, w in (("scheduler/threading/scheduler.py", "thr_once_call", True),
+                         ("scheduler/asyncio/scheduler.py", "aio_once_call", False)):
+        path = os.path.join(repo, rel)
+        CURFILE[0] = path
+        out.append(N.once_method(ast.parse(open(path).read()), defaults, name, w))
+    return HEADER % dpath + "\n".join(out)
+
+
 def translate_sched(repo):
     """threading Scheduler.exec_jobs up to the hand-over to the workers (selection)"""
     import py2v_methods as M
@@ -576,7 +593,7 @@ def main():
     sys.path.insert(0, os.path.dirname(os.path.abspath(__file__)))
     for fname, fn in (("GenTimer.v", translate_timer), ("GenJobState.v", translate_jobstate),
                       ("GenJobUtil.v", translate_jobutil), ("GenSelect.v", translate_select),
-                      ("GenJobInit.v", translate_jobinit), ("GenSched.v", translate_sched)):
+                      ("GenJobInit.v", translate_jobinit), ("GenSched.v", translate_sched), ("GenOnce.v", translate_once)):
         try:
             text = fn(repo)
             with open(os.path.join(outdir, fname), "w") as fh:
